@@ -270,7 +270,7 @@ func c07Specs(quick bool) []*SeqSpec {
 	for _, v := range []struct {
 		name    string
 		buf, rw uint
-	}{{"buf64", 64, 1 << 20}, {"buf128-rotate", 128, 12 + 64*3}, {"buf4096", 4096, 1 << 20}} {
+	}{{"buf64", 64, 1 << 20}, {"buf128-rotate", 128, 12 + 64*3}, {"buf64-rotate", 64, 12 + 64*3}, {"buf4096", 4096, 1 << 20}} {
 		if quick && v.name == "buf4096" {
 			continue
 		}
